@@ -296,6 +296,41 @@ func c10Gen(tier string, rng *rand.Rand, emit func(Case)) {
 			emit(Case{Line: fmt.Sprintf("pkg dec %02x - %s", t, hx(rndBytes(rng, []int{0, 1, 2, 5, 9, 40}[k]))), Kind: "arbitrary"})
 		}
 	}
+	// hostile multi-byte values in place of any length / count field: at every offset of the first bytes of
+	// an encoding, the 4- and 2-byte little-endian values around the sign and width boundaries. The
+	// encodings are sampled evenly over each kind's generator, so that every data type of the format and
+	// data packages occurs (a data length of 0x80000000 only matters for a LONGCHAR / LONGBINARY column).
+	hostile := [][]byte{{0xff, 0xff, 0xff, 0x7f}, {0x00, 0x00, 0x00, 0x80}, {0xff, 0xff, 0xff, 0xff}, {0xff, 0x7f}, {0x00, 0x80}, {0xff, 0xff}}
+	sample := map[string]int{"row": 160, "params": 160, "rowfmt": 40, "rowfmt2": 40, "paramfmt": 40, "paramfmt2": 40}
+	byKind := map[string][]validEnc{}
+	for _, e := range collectEncodings(tier, rng, 0) {
+		byKind[e.kind] = append(byKind[e.kind], e)
+	}
+	for _, k := range codecKinds() {
+		es := byKind[k]
+		want := sample[k]
+		if want == 0 {
+			want = 8
+		}
+		if tier == "thorough" {
+			want *= 5
+		}
+		step := len(es)/want + 1
+		for i := 0; i < len(es); i += step {
+			e := es[i]
+			body := e.bytes[1:]
+			for off := 0; off < len(body) && off < 28; off++ {
+				for _, h := range hostile {
+					if off+len(h) > len(body) {
+						continue
+					}
+					m := append([]byte{}, body...)
+					copy(m[off:], h)
+					emit(Case{Line: fmt.Sprintf("pkg dec %s %s %s", hx(e.bytes[:1]), e.ctx, hx(m)), Kind: "hostile-length:" + e.kind})
+				}
+			}
+		}
+	}
 	// packet level: all header values incl. length < 8 (c14.go)
 	rdrawGen(tier, rng, emit)
 	// value level: every data type with every data length 0..255 (c10values.go)
@@ -372,7 +407,7 @@ func init() {
 			return clause
 		},
 		Nontrivial: pkgNontrivial, NoShrink: true, Timeout: 30 * time.Second,
-		Rule: "valid encodings of every package kind with every byte (sampled on long ones) replaced by 00/01/7f/80/fe/ff, random multi-byte mutations with truncation and trailing garbage, and arbitrary bytes after each of the 256 token values; real ReadFrom under recover vs the Lean decoder (outcome class and fields must agree); packet level: the reader loop (Packet.ReadFrom per iteration) on streams of 1..3 packets with every announced length 0..16, every header type/status value, random header fields, truncations and read schedules vs the Lean reader model. value level: GoValue on every data type byte 0..255 with every data length 0..255 (zero, 0xff and random data) vs the Lean value model. Non-trivial = well-formed case",
+		Rule: "valid encodings of every package kind with every byte (sampled on long ones) replaced by 00/01/7f/80/fe/ff, random multi-byte mutations with truncation and trailing garbage, hostile 2- and 4-byte little-endian values (0x7fffffff, 0x80000000, 0xffffffff, 0x7fff, 0x8000, 0xffff) at every offset of the first 28 bytes of encodings sampled evenly over every kind's generator (every data type of the format and data packages), and arbitrary bytes after each of the 256 token values; real ReadFrom under recover vs the Lean decoder (outcome class and fields must agree); packet level: the reader loop (Packet.ReadFrom per iteration) on streams of 1..3 packets with every announced length 0..16, every header type/status value, random header fields, truncations and read schedules vs the Lean reader model. value level: GoValue on every data type byte 0..255 with every data length 0..255 (zero, 0xff and random data) vs the Lean value model. Non-trivial = well-formed case",
 		Assumptions: []string{"allocation is bounded by the received bytes since PacketQueue.Bytes checks availability first (fix 31957a3); peak heap is not measured per case"},
 	})
 }
